@@ -50,6 +50,8 @@ def spaces(tier, prop):
         conds.append(cond("envelope", False, ":is", v1=("l", ["from"]), v2=("l", ["@innerq", "@bslash"])))
         conds.append(cond("exists", False, v1=("l", ["@innerq", "@bslash"])))
         conds.append(cond("body", False, ":text", ":contains", v1=("l", ["@semi", "@endbs"])))
+    for hn in ("Notes", "NOTIFY-ID", "Size", "Body", "Exists", "True", "Envelope", "Address", "Currentdate", "Not"):
+        conds.append(cond("header", False, ":contains", v1=("s", hn), v2=("s", "x")))
     conds += [cond("true"), cond("false")]
     conds += [cond("size", False, ":over", n="100K"), cond("size", False, ":under", n="2M")]
     conds += [cond("exists", False, v1=("l", ["X-A"])), cond("exists", True, v1=("l", ["X-A", "X-B"])),
